@@ -1287,6 +1287,10 @@ func isTypeName(x ast.Expr) bool {
 
 func stripParens(x ast.Expr) ast.Expr {
 	if px, strip := x.(*ast.ParenExpr); strip {
+		switch px.X.(type) {
+		case *ast.LambdaExpr, *ast.LambdaExpr2:
+			return x // a lambda can't stand alone in a control clause: if (x => x) {
+		}
 		// parentheses must not be stripped if there are any
 		// unparenthesized composite literals starting with
 		// a type name
